@@ -61,6 +61,7 @@ Why equal canon implies equal futures
 """
 from __future__ import annotations
 
+import gc
 import hashlib
 import os
 import re
@@ -528,7 +529,14 @@ def _run_world(carrier: str, history: List[str]) -> Tuple[Any, List[dict]]:
     return w, snaps
 
 
+_RUNS = [0]
+
+
 def run_history(carrier: str, history: List[str]) -> Tuple[str, List[dict], List[str], Any]:
+    # automatic collection is off in the pool workers and every world is cyclic garbage
+    _RUNS[0] += 1
+    if _RUNS[0] % 64 == 0:
+        gc.collect()
     w, snaps = _run_world(carrier, history)
     viol: List[dict] = [V("harness-problem", p.split(":")[0], p) for p in w.problems]
     model, v2, expand = _judge(carrier, history, snaps, w)
